@@ -60,10 +60,11 @@ def decode(n):
         if lam is None:
             return ("lam", decode(n.owner), _QUANT[type(n.operator).__name__], None, None)
         ident = lam.identifier
-        if type(ident).__name__ != "Identifier" or ident.namespace:
-            raise DecodeError("lambda variable is not a plain identifier")
-        return ("lam", decode(n.owner), _QUANT[type(n.operator).__name__], ident.name,
-                decode(lam.expression))
+        if type(ident).__name__ != "Identifier":
+            raise DecodeError("lambda variable is not an identifier")
+        # a namespaced variable (ns.x: ...) is written dotted, exactly as in the source
+        return ("lam", decode(n.owner), _QUANT[type(n.operator).__name__],
+                ".".join(tuple(ident.namespace) + (ident.name,)), decode(lam.expression))
     raise DecodeError("unknown node class %s" % cn)
 
 
